@@ -175,21 +175,28 @@ func (s *HTTPMessageSignatures) Hash() []byte {
 	const int64BytesCount = 8
 
 	hash := sha256.New()
-	hash.Write(stringx.ToBytes(s.Label))
+
+	// every part is followed by a separator, so that adjacent parts cannot run into each other
+	write := func(part []byte) {
+		hash.Write(part)
+		hash.Write([]byte{0})
+	}
+
+	write(stringx.ToBytes(s.Label))
 
 	for _, component := range s.Components {
-		hash.Write(stringx.ToBytes(component))
+		write(stringx.ToBytes(component))
 	}
 
 	if s.TTL != nil {
 		ttlBytes := make([]byte, int64BytesCount)
 		binary.LittleEndian.PutUint64(ttlBytes, uint64(*s.TTL))
 
-		hash.Write(ttlBytes)
+		write(ttlBytes)
 	}
 
-	hash.Write(stringx.ToBytes(s.Signer.Name))
-	hash.Write(stringx.ToBytes(s.Signer.KeyID))
+	write(stringx.ToBytes(s.Signer.Name))
+	write(stringx.ToBytes(s.Signer.KeyID))
 
 	return hash.Sum(nil)
 }
